@@ -244,7 +244,407 @@ def run(rep, ctx):
                 f1.check(ok, "%s|%s" % (key, inst), short_loc(c.get("l")),
                          "%s(%s): %s" % (m, render(args[pos]), why), "%s(%s): %s" % (m, render(args[pos]), why))
     rep.extra["callback_argument_sites"] = sites
+
+    text_rules(rep, F, funcs, is_noreturn)
+    binary_rules(rep, F, funcs, is_noreturn, SR)
+    conversion_rules(rep, F, funcs, is_noreturn)
     return rep
+
+
+PTR = "mp::internal::ReaderBase::ptr_"
+
+
+def text_rules(rep, F, funcs, is_noreturn):
+    """S1: the text cursor never advances past a NUL it has not excluded."""
+    from ..scan import Scan, ref_id, deref_of
+    s1 = rep.rule("C02.S1", "SCAN",
+                  "TextReader: every advance of ptr_ is dominated by a still-valid test that the "
+                  "byte under it is not NUL (or that ptr_ != end_); strtod is the only other writer",
+                  floor=8)
+    tf = [f for f in funcs if f.qn.startswith("mp::internal::TextReader::")]
+    if not tf:
+        raise AnalysisBroken("no TextReader instantiation exported")
+    seen = set()
+    for f in tf:
+        f.cfg.cut_noreturn(lambda n: n["k"] in ("CXXMemberCallExpr", "CallExpr") and is_noreturn(n))
+
+        def mcm(call, f=f):
+            # calls on this reader that move the cursor kill the facts about it
+            cal = call.get("callee", "")
+            if re.match(r"mp::internal::(TextReader|ReaderBase)::", cal) and \
+                    cal.split("::")[-1] not in ("ReportError", "DoReportError", "IsEOF", "ptr", "locale"):
+                return {PTR}
+            # ptr_ passed by reference (Locale::strtod(const char *&))
+            for a in call_args(call):
+                if ref_id(a) == PTR and strip(a).get("lv"):
+                    return {PTR}
+            return set()
+        sc = Scan(F, f, mcm)
+        ordn = {}
+        for n in f.walk():
+            what = None
+            if n["k"] == "UnaryOperator" and n.get("op") == "++" and ref_id(kids(n)[0]) == PTR:
+                what = "++ptr_"
+            elif n["k"] == "CompoundAssignOperator" and ref_id(kids(n)[0]) == PTR:
+                what = render(n)
+            elif n["k"] == "BinaryOperator" and n.get("op") == "=" and ref_id(kids(n)[0]) == PTR:
+                what = "ptr_ = " + render(kids(n)[1])
+            if what is None:
+                continue
+            ordn[what] = ordn.get(what, 0) + 1
+            key = "%s|%s#%d" % (f.qn, what, ordn[what])
+            if (key, n.get("l")) in seen:
+                continue
+            seen.add((key, n.get("l")))
+            if what == "++ptr_":
+                s1.check(sc.may_advance(n, PTR), key, short_loc(n.get("l")),
+                         "%s: ++ptr_ guarded (byte under the cursor known non-NUL or ptr_ != end_)" % f.name,
+                         "%s: ++ptr_ is not dominated by a valid NUL / end test: on input ending here "
+                         "the cursor passes the terminating NUL" % f.name)
+            elif what.startswith("ptr_ = "):
+                rhs = strip(kids(n)[1])
+                # accepted: set_ptr(p) (caller-provided saved position) and the end pointer of strtod
+                ok = f.name == "set_ptr" or _is_strtod_end(f, rhs)
+                s1.check(ok, key, short_loc(n.get("l")),
+                         "%s: `%s` restores a saved position / takes strtod's end pointer" % (f.name, what),
+                         "%s: `%s` moves the cursor to an unchecked position" % (f.name, what))
+            else:
+                s1.fail(key, short_loc(n.get("l")), "%s: `%s` moves the cursor by an unchecked amount" % (f.name, what))
+
+    # S1b: a NUL returned by ReadChar() is never followed by another cursor read
+    s1b = rep.rule("C02.S1b", "PATH",
+                   "at every ReadChar() site the NUL outcome reaches ReportError or the EOF return "
+                   "before any further cursor read", floor=6)
+    nlr = [f for f in funcs if f.qn.startswith(NLR + "::") or f.qn.startswith("mp::internal::TextReader::ReadHeader")]
+    seen = set()
+    for g in nlr:
+        g.cfg.cut_noreturn(lambda n: n["k"] in ("CXXMemberCallExpr", "CallExpr") and is_noreturn(n))
+        for c in g.walk():
+            if c["k"] != "CXXMemberCallExpr" or not c.get("callee", "").endswith("::ReadChar"):
+                continue
+            key = "%s|ReadChar@%s" % (short_fn(g), _ctx(g, c))
+            if (key, c.get("l")) in seen:
+                continue
+            seen.add((key, c.get("l")))
+            ok, why = nul_outcome_safe(F, g, c, is_noreturn)
+            s1b.check(ok, key, short_loc(c.get("l")), why, why)
+
+
+def _ctx(g, c):
+    p = g.parent.get(c["i"])
+    for _ in range(6):
+        if p is None:
+            break
+        if p["k"] in ("SwitchStmt", "IfStmt", "VarDecl", "CXXMemberCallExpr", "ReturnStmt"):
+            return p["k"] + (":" + p.get("name", "") if p["k"] == "VarDecl" else "")
+        p = g.parent.get(p["i"])
+    return "?"
+
+
+def _is_strtod_end(f, rhs):
+    if rhs["k"] != "DeclRefExpr":
+        return False
+    d = rhs.get("declId")
+    for n in f.walk():
+        if n["k"] == "CallExpr" and n.get("callee") in ("strtod", "std::strtod"):
+            a = call_args(n)
+            if len(a) == 2:
+                t = strip(a[1])
+                if t["k"] == "UnaryOperator" and t.get("op") == "&" and strip(kids(t)[0]).get("declId") == d:
+                    return True
+    return False
+
+
+def cursor_read(n):
+    return n["k"] == "CXXMemberCallExpr" and n.get("callee", "").split("::")[-1] in CURSOR_READS and \
+        re.match(r"mp::internal::(TextReader|BinaryReader|BinaryReaderBase|ReaderBase)::", n.get("callee", "")) is not None
+
+
+def nul_outcome_safe(F, g, c, is_noreturn, depth=0):
+    """After ReadChar() returned NUL: the consumer (switch / comparison / callee
+    parameter) must send the NUL to an error or to the IsEOF return."""
+    par = g.parent.get(c["i"])
+    node = c
+    # walk up through casts / `- '0'`
+    offset = 0
+    while par is not None and (par["k"] in TRANSPARENT or (
+            par["k"] == "BinaryOperator" and par.get("op") == "-" and cv(kids(par)[1]) is not None)):
+        if par["k"] == "BinaryOperator":
+            offset -= cv(kids(par)[1])
+        node = par
+        par = g.parent.get(par["i"])
+    nulval = 0 + offset
+    if par is None:
+        return False, "ReadChar() result unused"
+    reads = [n["i"] for n in g.walk() if cursor_read(n) and n["i"] != c["i"]]
+    # also calls into reader methods that read
+    reads += [n["i"] for n in g.walk() if n["k"] == "CXXMemberCallExpr" and n.get("calleeRec") == g.rec
+              and n.get("callee", "").split("::")[-1].startswith(("Read", "DoRead")) and n["i"] != c["i"]]
+    if par["k"] == "VarDecl":
+        var = par["declId"]
+        # calls that receive the variable and send a NUL to an error themselves are not "reads"
+        safe_calls = set()
+        for n in g.walk():
+            if n["k"] in ("CXXMemberCallExpr", "CallExpr") and depth < 2 and \
+                    any(strip(a) is not None and strip(a).get("declId") == var for a in call_args(n)):
+                if callee_sends_nul_to_error(F, g, n, var, nulval, is_noreturn):
+                    safe_calls.add(n["i"])
+        reads = [r for r in reads if r not in safe_calls]
+        users = [n for n in g.walk() if n["k"] == "SwitchStmt" and _switch_on(g, n, var)]
+        if users:
+            return switch_nul(g, users[0], nulval, reads)
+        cmps = [n for n in g.walk() if n["k"] == "BinaryOperator" and n.get("op") in ("==", "!=")
+                and any(strip(x) is not None and strip(x).get("declId") == var for x in kids(n))
+                and any(cv(x) is not None for x in kids(n))]
+        cmps = [n for n in cmps if any(b.get("cond") is not None and strip(g.nodes.get(b["cond"]))["i"] == n["i"]
+                                       for b in g.cfg.blocks.values())]
+        if cmps:
+            first = [n for n in cmps if all(g.cfg.dominates(n, o) for o in cmps)]
+            n = (first or cmps)[0]
+            k = [cv(x) for x in kids(n) if cv(x) is not None][0]
+            truth = (nulval == k) if n["op"] == "==" else (nulval != k)
+            blk = [b for b in g.cfg.blocks.values() if b.get("cond") is not None and
+                   strip(g.nodes.get(b["cond"]))["i"] == n["i"]][0]
+            succ = g.cfg.succ[blk["id"]]
+            if not succ:
+                return True, "NUL branch is cut (ReportError)"
+            tgt = succ[0] if truth else (succ[1] if len(succ) > 1 else None)
+            if tgt is None:
+                return True, "NUL branch is cut (ReportError)"
+            w = g.cfg.path_avoiding((tgt, -1), reads, [])
+            return (w is None, ("NUL makes `%s` %s, which reaches no further read" % (render(n), truth))
+                    if w is None else "after NUL, `%s` %s branch can read again (blocks %s)" % (render(n), truth, w))
+        return False, "NUL consumer of local `%s` not recognised" % par.get("name")
+    if par["k"] == "SwitchStmt":
+        return switch_nul(g, par, nulval, reads)
+    if par["k"] == "BinaryOperator" and par.get("op") in ("!=", "=="):
+        other = kids(par)[1] if kids(par)[0] is node else kids(par)[0]
+        k = cv(other)
+        if k is None:
+            return False, "comparison with a non-constant"
+        truth = (nulval == k) if par["op"] == "==" else (nulval != k)
+        # the branch taken for NUL must reach a noreturn call before any read
+        blk = [b for b in g.cfg.blocks.values() if b.get("cond") is not None and
+               strip(g.nodes.get(b["cond"]))["i"] == par["i"]]
+        if not blk:
+            return False, "comparison is not a branch condition"
+        succ = g.cfg.succ[blk[0]["id"]]
+        tgt = succ[0] if truth else succ[1]
+        if tgt is None:
+            return True, "NUL branch is cut (ReportError)"
+        w = g.cfg.path_avoiding((tgt, -1), reads, [])
+        return (w is None, "NUL takes the %s branch of `%s`, which reaches no further read" % (truth, render(par))
+                if w is None else "after NUL, `%s` %s branch can read again (blocks %s)" % (render(par), truth, w))
+    if par["k"] in ("CXXMemberCallExpr", "CallExpr") and depth < 2:
+        # value passed as an argument: follow into the callee's parameter
+        h = F.by_id.get(par.get("calleeId"))
+        idx = [i for i, a in enumerate(call_args(par)) if any(x is c for x in walk(a))]
+        if h is not None and idx and h.cfg is not None:
+            h.cfg.cut_noreturn(lambda n: n["k"] in ("CXXMemberCallExpr", "CallExpr") and is_noreturn(n))
+            pid = h.params[idx[0]]["declId"]
+            sw = [n for n in h.walk() if n["k"] == "SwitchStmt" and _switch_on(h, n, pid)]
+            reads2 = [n["i"] for n in h.walk() if cursor_read(n)] + \
+                [n["i"] for n in h.walk() if n["k"] == "CXXMemberCallExpr" and n.get("calleeRec") == h.rec
+                 and n.get("callee", "").split("::")[-1].startswith(("Read", "DoRead"))]
+            if sw:
+                ok, why = switch_nul(h, sw[0], nulval, reads2)
+                return ok, "passed to %s: %s" % (h.name, why)
+        return False, "NUL consumer in callee %s not recognised" % par.get("callee")
+    if par["k"] == "ReturnStmt":
+        return True, "returned to the caller (checked at the caller's site)"
+    return False, "NUL consumer %s not recognised" % par["k"]
+
+
+def callee_sends_nul_to_error(F, g, call, var, nulval, is_noreturn):
+    h = F.by_id.get(call.get("calleeId"))
+    if h is None or h.cfg is None:
+        return False
+    idx = [i for i, a in enumerate(call_args(call)) if strip(a) is not None and strip(a).get("declId") == var]
+    if not idx or idx[0] >= len(h.params):
+        return False
+    h.cfg.cut_noreturn(lambda n: n["k"] in ("CXXMemberCallExpr", "CallExpr") and is_noreturn(n))
+    pid = h.params[idx[0]]["declId"]
+    sw = [n for n in h.walk() if n["k"] == "SwitchStmt" and _switch_on(h, n, pid)]
+    reads2 = [n["i"] for n in h.walk() if cursor_read(n)] + \
+        [n["i"] for n in h.walk() if n["k"] == "CXXMemberCallExpr" and n.get("calleeRec") == h.rec
+         and n.get("callee", "").split("::")[-1].startswith(("Read", "DoRead"))]
+    return bool(sw) and switch_nul(h, sw[0], nulval, reads2)[0]
+
+
+def _switch_on(g, sw, decl):
+    ks = kids(sw)
+    cond = strip(ks[0]) if ks else None
+    # the condition may be a DeclStmt (switch (char c = ...)) followed by the ref
+    for x in ks[:2]:
+        y = strip(x)
+        if y is not None and y["k"] == "DeclRefExpr" and y.get("declId") == decl:
+            return True
+    return False
+
+
+def switch_nul(g, sw, nulval, reads):
+    """In switch `sw`, the successor taken for value nulval must not read again."""
+    blk = [b for b in g.cfg.blocks.values() if b.get("term") == sw["i"]]
+    if not blk:
+        return False, "switch not found in the CFG"
+    b = blk[0]
+    tgt = None
+    default = None
+    for s in g.cfg.succ[b["id"]]:
+        if s is None:
+            continue
+        lab = g.nodes.get(g.cfg.blocks[s].get("label", -1))
+        if lab is not None and lab["k"] == "CaseStmt":
+            if cv(kids(lab)[0]) == nulval:
+                tgt = s
+        else:
+            default = s
+    if tgt is None:
+        tgt = default
+    if tgt is None:
+        return False, "switch has no branch for NUL and no default"
+    # allowed: the EOF return (IsEOF true branch returns) and ReportError (already cut)
+    w = g.cfg.path_avoiding((tgt, -1), reads, [])
+    if w is None:
+        return True, "NUL goes to %s, from which no cursor read is reachable" % (
+            "case %d" % nulval if tgt != default else "default")
+    return False, "after a NUL the switch branch can read the cursor again (blocks %s)" % w
+
+
+def binary_rules(rep, F, funcs, is_noreturn, SR):
+    from ..scan import ref_id
+    g1 = rep.rule("C02.G1", "GUARD",
+                  "BinaryReader: ptr_ advances only in Read(length) after `end_ - ptr_ < length` "
+                  "was excluded; every binary read goes through Read", floor=3)
+    bf = [f for f in funcs if re.match(r"mp::internal::(BinaryReaderBase|BinaryReader)::", f.qn)]
+    if not bf:
+        raise AnalysisBroken("no BinaryReader function exported")
+    seen = set()
+    for f in bf:
+        f.cfg.cut_noreturn(lambda n: n["k"] in ("CXXMemberCallExpr", "CallExpr") and is_noreturn(n))
+        for n in f.walk():
+            w = None
+            if n["k"] == "CompoundAssignOperator" and ref_id(kids(n)[0]) == PTR:
+                w = n
+            elif n["k"] == "UnaryOperator" and n.get("op") in ("++", "--") and ref_id(kids(n)[0]) == PTR:
+                w = n
+            elif n["k"] == "BinaryOperator" and n.get("op") == "=" and ref_id(kids(n)[0]) == PTR:
+                w = n
+            if w is None:
+                continue
+            key = "%s|%s" % (f.qn, render(w))
+            if (key, w.get("l")) in seen:
+                continue
+            seen.add((key, w.get("l")))
+            ok = False
+            if f.name == "Read" and w["k"] == "CompoundAssignOperator" and w.get("op") == "+=":
+                amt = strip(kids(w)[1])
+                for (cid, pol) in f.cfg.facts_at(w):
+                    c = strip(f.nodes[cid])
+                    if c["k"] == "BinaryOperator" and c["op"] == "<" and pol is False and \
+                            render(kids(c)[0]) == "end_ - ptr_" and render(kids(c)[1]) == render(amt):
+                        ok = True
+            g1.check(ok, key, short_loc(w.get("l")),
+                     "%s: `%s` happens only after `end_ - ptr_ < %s` was excluded" % (f.name, render(w), render(kids(w)[1]) if kids(w)[1:] else ""),
+                     "%s: `%s` moves the binary cursor without the remaining-length test" % (f.name, render(w)))
+        # raw memory reads must take their pointer from Read()
+        for n in f.walk():
+            if n["k"] == "CallExpr" and n.get("callee") in ("memcpy", "std::memcpy"):
+                src = strip(call_args(n)[1])
+                while src is not None and src["k"] in ("CStyleCastExpr", "CXXStaticCastExpr", "CXXReinterpretCastExpr"):
+                    src = strip(kids(src)[0])
+                key = "%s|memcpy-source" % f.qn
+                if (key, n.get("l")) in seen:
+                    continue
+                seen.add((key, n.get("l")))
+                ok = src is not None and src["k"] == "CXXMemberCallExpr" and src.get("callee", "").endswith("::Read") \
+                    and render(call_args(src)[0]) == render(call_args(n)[2])
+                g1.check(ok, key, short_loc(n.get("l")),
+                         "%s copies exactly the %s bytes obtained from Read(%s)" % (
+                             f.full[-40:], render(call_args(n)[2]), render(call_args(src)[0]) if ok else "?"))
+    # R0: raw unsigned reads are non-negative
+    r0 = rep.rule("C02.R0", "RANGE", "raw ReadUInt() results are non-negative (binary: checked; "
+                  "text: value assigned only after the overflow checks)", floor=2)
+    seen = set()
+    for f in funcs:
+        if f.qn == "mp::internal::BinaryReader::ReadUInt":
+            key = "%s|%s" % (f.qn, "swap" if "Endianness" in f.full else "native")
+            if key in seen:
+                continue
+            seen.add(key)
+            v = SR.summary_value(f, [], cons := [], 0)
+            ok = v is not None and entails(SR.cons + cons, GE(v, Lin.const(0)))
+            r0.check(ok, key, short_loc(f.loc), "BinaryReader::ReadUInt returns a value entailed >= 0")
+        if f.qn == "mp::internal::TextReader::ReadIntWithoutSign":
+            key = "%s|%s" % (f.qn, f.full.split("<")[-1])
+            if key in seen:
+                continue
+            seen.add(key)
+            f.cfg.cut_noreturn(lambda n: n["k"] in ("CXXMemberCallExpr", "CallExpr") and is_noreturn(n))
+            st = [n for n in f.walk() if n["k"] == "BinaryOperator" and n.get("op") == "=" and
+                  strip(kids(n)[0]).get("name") == "value"]
+            ok = len(st) == 1
+            if ok:
+                fs = [(render(strip(f.nodes[cid])), pol) for cid, pol in f.cfg.facts_at(st[0])]
+                ok = ("result > max", False) in fs
+            wrap = [n for n in f.walk() if n["k"] == "BinaryOperator" and n.get("op") == "<" and
+                    render(n) == "new_result < result"]
+            r0.check(ok and bool(wrap), key, short_loc(f.loc),
+                     "value = result only after `result > max` was excluded and the wrap test "
+                     "`new_result < result` guards every digit")
+
+
+def conversion_rules(rep, F, funcs, is_noreturn):
+    u1 = rep.rule("C02.U1", "GUARD",
+                  "a file-provided double is converted to an integer type only after a range check "
+                  "(the conversion of an out-of-range value is undefined behaviour)", floor=1)
+    seen = set()
+    for f in funcs:
+        if not re.match(r"mp::internal::(TextReader|NLReader|BinaryReader)", f.qn):
+            continue
+        for n in f.walk():
+            if n["k"] in ("ImplicitCastExpr", "CStyleCastExpr", "CXXStaticCastExpr", "CXXFunctionalCastExpr") \
+                    and n.get("ck") == "FloatingToIntegral":
+                src = strip(kids(n)[0])
+                if cv(src) is not None:
+                    continue
+                key = "%s|(%s)%s" % (f.qn, n.get("ct"), render(src))
+                if (key, n.get("l")) in seen:
+                    continue
+                seen.add((key, n.get("l")))
+                f.cfg.cut_noreturn(lambda x: x["k"] in ("CXXMemberCallExpr", "CallExpr") and is_noreturn(x))
+                lo = hi = False
+                for cid, pol in f.cfg.facts_at(n):
+                    c = strip(f.nodes[cid])
+                    lo2, hi2 = range_check_of(c, pol, src)
+                    lo, hi = lo or lo2, hi or hi2
+                u1.check(lo and hi, key, short_loc(n.get("l")),
+                         "conversion of `%s` to %s is dominated by a two-sided range check" % (render(src), n.get("ct")),
+                         "`(%s)%s`: the double comes from the file and is converted without a range "
+                         "check - undefined behaviour for values outside %s (e.g. 1e300)" % (
+                             n.get("ct"), render(src), n.get("ct")))
+
+
+def range_check_of(c, pol, src):
+    """(lower, upper) bound knowledge about src from condition c with truth pol."""
+    if c["k"] == "UnaryOperator" and c.get("op") == "!":
+        return range_check_of(strip(kids(c)[0]), not pol, src)
+    if c["k"] == "BinaryOperator":
+        op = c["op"]
+        a, b = strip(kids(c)[0]), strip(kids(c)[1])
+        if op == "&&" and pol or op == "||" and not pol:
+            l1, h1 = range_check_of(a, pol, src)
+            l2, h2 = range_check_of(b, pol, src)
+            return l1 or l2, h1 or h2
+        if op in ("<", "<=", ">", ">="):
+            sa, sb = render(a) == render(src), render(b) == render(src)
+            if not (sa or sb):
+                return False, False
+            o = op if pol else {"<": ">=", "<=": ">", ">": "<=", ">=": "<"}[op]
+            if sb:
+                o = {"<": ">", "<=": ">=", ">": "<", ">=": "<="}[o]
+            return o in (">", ">="), o in ("<", "<=")
+    return False, False
 
 
 def reader_kind(g):
